@@ -308,6 +308,27 @@ func checkC09(r *Run) {
 			continue
 		}
 		snd := sends[0]
+		// the call reaches the session: the client answers locally (without a round trip) only what the protocol
+		// cannot carry — a walk of more than 16 names
+		for _, rs := range returnSites(cm) {
+			if rs.DominatedBy(snd) {
+				continue
+			}
+			okLimit := false
+			if name == "Walk" {
+				cfa := p.FA(cm)
+				for _, prm := range cm.Params {
+					if _, isSl := prm.Type().Underlying().(*types.Slice); isSl {
+						goal := linConst(17).Sub(cfa.linSym(lenOf(cfa.Sym(prm)), 0)) // 17 - len(names) <= 0
+						if Entails(cfa.FactsAtSite(rs, goal), goal) {
+							okLimit = true
+						}
+					}
+				}
+			}
+			r.Check(okLimit, "msgflow", "client."+name+": answered without a round trip only beyond the protocol's limits", rs.Pos(),
+				"the client refuses (or answers) the call locally although the protocol can carry it: the session never sees the call")
+		}
 		flds, tnamed, ok := compositeFields(snd.Call.Args[1])
 		if !ok || tnamed == nil {
 			r.Undecided("msgflow", "client."+name+": request literal", snd.Pos(), "the message sent is not a composite literal")
@@ -514,6 +535,9 @@ func checkC09(r *Run) {
 	// duplicate tags refused) are necessary conditions of this property too and are evaluated here as well
 	checkC05(r)
 	checkC06(r)
+	// every call re-arms the deadline of the shared connection (a caller without a deadline must not inherit the
+	// expired deadline of an earlier caller)
+	ioDeadlineArmed(r, "io-deadline")
 	// "… and all of them complete", "up to the documented wire limits": one caller's failed request write must not
 	// end the owner loop for the others (rule shared with C12); a frame of exactly msize — what a clipped write
 	// or a full read produces — is accepted by the receiving channel (rules shared with C03)
